@@ -9,6 +9,13 @@ def _writes_attr(fi, attr):
     return any(k == "rebind" for _, k, _ in q.writes_to_self_attr(fi, attr))
 
 
+def _anc8(n):
+    p_ = getattr(n, "_parent", None)
+    while p_ is not None:
+        yield p_
+        p_ = getattr(p_, "_parent", None)
+
+
 def _advance_stmts(m):
     """statements of method ``m`` that step an attribute of self by one: ``self.a += 1``, or the same written out
     (``self.a = self.a + 1``, possibly through a local)"""
@@ -422,6 +429,60 @@ def run(ctx):
     scratch_rule(ctx, r, tp_parse)
     ctx.borrow("c05", "C05-R2", "C08-R6", "'a command string and the equivalent argv list are indistinguishable' also the second time the same list is wrapped: the argv "
                "wrapper (like every consumer of raw arguments) works on a copy and never pops from the caller's list")
+    # ---------------------------------------------------------------- R8
+    r = ctx.rule("C08-R8", "RANGE", "'for every string' includes the shortest ones: where the tokenizer tests the length of a string before it indexes it, the test covers the index - "
+                 "`s[k]` is reached only under `len(s) > k` (or an equivalent), not under a weaker bound copied from a neighbouring line", reference=2)
+
+    def len_bound(e, base):
+        """smallest length of `base` that the TRUE edge of test ``e`` guarantees, or None"""
+        def is_len(x):
+            return isinstance(x, ast.Call) and isinstance(x.func, ast.Name) and x.func.id == "len" and x.args and norm(x.args[0]) == base
+        if is_len(e) or norm(e) == base:
+            return 1
+        if isinstance(e, ast.Compare) and len(e.ops) == 1 and isinstance(e.comparators[0], ast.Constant) and isinstance(e.comparators[0].value, int) and is_len(e.left):
+            c = e.comparators[0].value
+            if isinstance(e.ops[0], ast.Gt):
+                return c + 1
+            if isinstance(e.ops[0], ast.GtE):
+                return c
+            if isinstance(e.ops[0], ast.NotEq) and c == 0:
+                return 1
+        if isinstance(e, ast.Compare) and len(e.ops) == 1 and isinstance(e.left, ast.Constant) and isinstance(e.left.value, int) and is_len(e.comparators[0]):
+            c = e.left.value
+            if isinstance(e.ops[0], ast.Lt):
+                return c + 1
+            if isinstance(e.ops[0], ast.LtE):
+                return c
+        return None
+
+    n8 = 0
+    for name, m in sorted(tp.methods.items()):
+        cfg = ctx.cfg(m)
+        for sub in [n for n in walk_no_nested(m.node) if isinstance(n, ast.Subscript) and isinstance(n.ctx, ast.Load) and isinstance(n.slice, ast.Constant) and isinstance(n.slice.value, int) and n.slice.value >= 0]:
+            base = norm(sub.value)
+            k = sub.slice.value
+            # only bases whose length this method tests at all (the code itself says the string may be short)
+            tests = [x for x in ast.walk(m.node) if isinstance(x, (ast.If, ast.IfExp, ast.While)) and len_bound(x.test, base) is not None]
+            if not tests:
+                continue
+            n8 += 1
+            best = 0
+            # conditional expression around the subscript
+            for a in _anc8(sub):
+                if isinstance(a, ast.IfExp) and any(y is sub for y in ast.walk(a.body)):
+                    best = max(best, len_bound(a.test, base) or 0)
+            for sn in cfg.nodes_of(sub):
+                for e in cfg.nodes:
+                    if e.kind == "T" and e.ast is not None and cfg.dominates(e.id, sn.id):
+                        best = max(best, len_bound(e.ast, base) or 0)
+            if best >= k + 1:
+                r.ok("%s: %s under a length test that guarantees %d character(s)" % (m.short, norm(sub), best))
+            else:
+                r.fail(m, sub, "%s under a length bound of %d" % (norm(sub), best), "%s reads %s where the length test in force guarantees only %d character(s): a string of exactly %d "
+                       "character(s) raises IndexError - the tokenizer is not total" % (m.short, norm(sub), best, k))
+    if n8 == 0:
+        r.vacuous_ok = True
+
     return ctx.results
 
 
